@@ -660,6 +660,9 @@ func (s *PersistentHybridIndex) Flush() error {
 	}
 	s.mu.RUnlock()
 
+	// Freeze the active memtable so its documents are flushed too
+	s.memtableQueue.rotateIfNotEmpty()
+
 	return s.flushMemtables()
 }
 
@@ -832,7 +835,8 @@ func (s *PersistentHybridIndex) flushWorker() {
 			verifHook("bg.flush.end")
 		case <-s.closeChan:
 			verifHook("bg.flush.closing")
-			// Final flush before closing
+			// Final flush before closing (including the active memtable)
+			s.memtableQueue.rotateIfNotEmpty()
 			s.flushMemtables()
 			return
 		}
